@@ -42,14 +42,12 @@ from commonroad.scenario.trajectory import Trajectory
 from crverif.core import HarnessError, canon
 from crverif.gen import geometry as G
 from crverif.gen.values import TWO_PI, angle, coord
-from crverif.oracle import geom
 
 # the text of a strategy is only used by Hypothesis for an internal event label; building it is a one-off cost
 warnings.filterwarnings("ignore", message="Generating overly large repr")
 
 D = {"$d": 1}
 ID_POOL = [0, 8, 16, 32, 64, 1, 2, 3, 5, 24, 40, 128]      # 0/8/16/... collide in small hash tables
-POS_POOL = [8, 16, 32, 64, 1, 2, 3, 5, 24, 40, 128]         # where the library requires ids > 0
 ABS_LIMIT = 1e3                                               # absolute 1e-9..1e-8 perturbations only for |v| <= 1e3
 
 
@@ -208,7 +206,6 @@ class Choice(Kind):
 
 
 ID = Choice(ID_POOL)
-POS_ID = Choice(POS_POOL)
 
 
 class Bool(Kind):
